@@ -50,7 +50,7 @@ func main() {
 		if replay {
 			c08.Replay(r, engines(), fams, rf.Case)
 		} else {
-			r.Rule("every root type of the schema families (struct map/tuple/stringjoin/listpairs over all optional/nullable mode vectors and renames; union keyed/kinded/stringprefix; enum string/int; typed maps and lists; every scalar incl. link; Any; thorough: every outer×inner strategy pair) × every value of V(T) (full product where ≤400, else all single and pairwise deviations) × engines {bindnode with inferred Go types, generated code} × four construction routes (type-level builder, representation builder, dag-cbor decode, dag-json decode through the representation prototype); both views read completely, representation encoded and compared with reference bytes, routes compared with DeepEqual. Non-trivial: every typed value (distinct by construction).")
+			r.Rule("every root type of the schema families (struct map/tuple/stringjoin/listpairs over all optional/nullable mode vectors and renames; union keyed/kinded/stringprefix; enum string/int; typed maps and lists; every scalar incl. link; Any; thorough: every outer×inner strategy pair) × every value of V(T) (full product where ≤400, else all single and pairwise deviations) × engines {bindnode with inferred Go types, generated code} × four construction routes (type-level builder, representation builder, dag-cbor decode, dag-json decode through the representation prototype); every single route deviation (AssignNode of prebuilt basic/kind-specific/foreign nodes at every position, keys through the key assembler, size hints) at both levels; both views read completely, representation encoded and compared with reference bytes, routes compared with DeepEqual. Non-trivial: every typed value (distinct by construction).")
 			r.Assume("reference schema semantics mc/rs; corners the schema specification leaves undefined are outside V(T) (tuple absent-then-present, delimiter inside stringjoin fields)")
 			c08.Run(r, engines(), fams)
 		}
